@@ -65,8 +65,14 @@ run)
     (cd "$ROOT" && ./check "$prop" "$tier" --no-evidence "$@") >"/tmp/seeded_$name.log" 2>&1; rc=$?
     t1=$(date +%s)
     git -C /repo checkout -- .
+    # every case the check reported under the change must hold on the unchanged tree: anything that still fails
+    # there is either a genuine defect or a false alarm of the harness, and is flagged for triage
+    (cd "$ROOT" && ./check build >/dev/null 2>&1)
+    for f in $(grep -E "^VIOLATION" "/tmp/seeded_$name.log" | sed -E 's/.*replay=//' | grep -v "/corpus/" | sort -u); do
+        if ! "$ROOT/engine/target/release/verif-engine" replay "$prop" "$f" >/dev/null 2>&1; then echo "  FAILS-ON-UNCHANGED-TREE $f"; fi
+    done
     sig=$(grep -m1 -E "^VIOLATION" "/tmp/seeded_$name.log")
-    first=$(grep -m1 -E "sig=|signature" "/tmp/seeded_$name.log" | cut -c1-300)
+    first=$(grep -m1 -E "^  signature:" "/tmp/seeded_$name.log" | cut -c1-300)
     if [ $rc -eq 1 ] && [ -n "$sig" ]; then res=CAUGHT; elif [ $rc -eq 0 ]; then res=MISSED; else res="ERROR($rc)"; fi
     echo "$name $prop $tier $res $((t1-t0))s  $first"
     python3 - "$dst/meta.json" "$tier" "$res" "$((t1-t0))" "$first" <<'E'
@@ -80,7 +86,6 @@ E
 runall)
     tier="${1:-quick}"
     for d in "$ROOT"/seeded/*/; do "$0" run "$(basename "$d")" "$tier"; done
-    (cd "$ROOT" && ./check build >/dev/null 2>&1)
     ;;
 *) echo "usage: seeded.sh verify|run|runall"; exit 2;;
 esac
